@@ -245,6 +245,40 @@ def build() -> Check:
         muts = input_mutations(fi)
         ck.ob("R5.reader-does-not-mutate-its-input", fn_construct(fi), not muts, "; ".join(f"line {ln}: {why}" for ln, why in muts[:3]))
     ck.floor("reader_functions", n_readers, 15)
+    # R6 a codec function is a function of its argument: what a wire dictionary decodes to (or an object encodes to) may not depend on what was
+    # decoded before. Module-level mutable containers, `global` / `nonlocal` state and functools caches keyed by part of the input make the result of a
+    # round trip depend on history (r6_C20: decoded operations memoised by (Id, Status, EndTimestamp) - ids are unique per execution only)
+    MUT_CALLS = {"dict", "list", "set", "defaultdict", "OrderedDict", "WeakValueDictionary", "deque", "Counter", "LRUCache"}
+    n_pure = 0
+    for mod_ in MODULES:
+        mobj = prog.module(mod_)
+        mutable_globals = {}
+        for st_ in mobj.tree.body:
+            tgt_ = st_.targets[0] if isinstance(st_, ast.Assign) and len(st_.targets) == 1 else (st_.target if isinstance(st_, ast.AnnAssign) and st_.value is not None else None)
+            val_ = getattr(st_, "value", None)
+            if isinstance(tgt_, ast.Name) and val_ is not None:
+                if isinstance(val_, (ast.Dict, ast.List, ast.Set, ast.DictComp, ast.ListComp, ast.SetComp)) or (
+                        isinstance(val_, ast.Call) and (val_.func.id if isinstance(val_.func, ast.Name) else getattr(val_.func, "attr", "")) in MUT_CALLS):
+                    mutable_globals[tgt_.id] = st_.lineno
+        for fi in prog.functions.values():
+            if isinstance(fi.node, ast.Lambda) or fi.cls is None or fi.module.short() != mod_:
+                continue
+            if not (fi.name.startswith("from_") or fi.name.startswith("to_")):
+                continue
+            n_pure += 1
+            why_ = []
+            for n_ in ast.walk(fi.node):
+                if isinstance(n_, ast.Name) and n_.id in mutable_globals:
+                    why_.append(f"line {n_.lineno}: uses the module-level mutable `{n_.id}` (defined line {mutable_globals[n_.id]})")
+                elif isinstance(n_, (ast.Global, ast.Nonlocal)):
+                    why_.append(f"line {n_.lineno}: `{ast.unparse(n_)}`")
+            for d_ in fi.node.decorator_list:
+                if any(tok in ast.unparse(d_) for tok in ("cache", "lru_cache", "memo")):
+                    why_.append(f"decorated with `{ast.unparse(d_)}`")
+            ck.ob("R6.codec-function-depends-on-its-argument-only", fn_construct(fi), not why_,
+                  "; ".join(why_[:2]) + ": the decoded / encoded form depends on what this process handled before - a different wire dictionary with the same key "
+                  "(operation ids repeat across executions) comes back as the first one's object" if why_ else "")
+    ck.floor("codec_functions_checked_for_purity", n_pure, 30)
     # R4 a millisecond value of 0 is a timestamp (the epoch): the JSON reader must test presence, not truthiness, before it converts
     tests0 = []
     for n_ in ast.walk(fj.node):
